@@ -114,7 +114,7 @@ Definition check_C10 (line : list Z) : list Z :=
       let base := Z.lor (if hasw then T_WEIGHTED else 0) (if sorted then T_SORTED else 0) in
       match run_qs s s' ps W wex tolu qs 0%Z 0%Z 0%Z with
       | (code, tag, pos, diag) =>
-          let tag' := if (tag =? 0)%Z then 0%Z else Z.lor tag base in
+          let tag' := match qs with [] => 0%Z | _ => Z.lor tag base end in
           if (code =? 2)%Z then verdict V_MISMATCH tag' pos diag
           else if negb (unm =? 1)%Z then verdict V_MISMATCH tag' (-2) [9%Z]
           else
